@@ -13,6 +13,7 @@ PROP = {
         {"name": "portable_vector_tracked_big", "quick": 60000, "thorough": 300000, "maxlen": 256},
         {"name": "vector_nested", "quick": 120000, "thorough": 1500000, "maxlen": 256},
         {"name": "portable_vector_nested", "quick": 80000, "thorough": 1000000, "maxlen": 256},
+        {"name": "flat_hosted_cmp", "quick": 100000, "thorough": 2000000, "maxlen": 200},
         {"name": "flat_hosted", "quick": 150000, "thorough": 3000000, "maxlen": 200},
         {"name": "flat_embedded", "quick": 150000, "thorough": 3000000, "maxlen": 200},
     ],
